@@ -23,6 +23,7 @@ def run(tier):
     quick = tier == "quick"
     b = numcommon.build()
     bf = numcommon.build(["ARDUINOJSON_USE_DOUBLE=0"], "numbers_record-float")   # single-precision storage
+    ba = numcommon.build([], "numbers_record-arduino", arduino=True)            # tables in "program memory"
     rng = random.Random(vlib.seed())
     shapes = numbersgen.shapes(rng, 6000 if quick else 120000)
     jobs = []
@@ -37,24 +38,30 @@ def run(tier):
         if p % 2 == 0:
             outf = os.path.join(wd, f"parsef{p}.ndjson")
             jobs.append((f"parsef{p}", [bf, "parse", sp, outf], outf))
+        else:
+            outa = os.path.join(wd, f"parsea{p}.ndjson")
+            jobs.append((f"parsea{p}", [ba, "parse", sp, outa], outa))
     stride = 4099 if quick else 1
     fparts = 4 if quick else 16
     span = 2**32 // fparts
     for p in range(fparts):
         out = os.path.join(wd, f"print{p}.ndjson")
         jobs.append((f"print{p}", [b, "print", out, str(stride), str(p * span), str((p + 1) * span - 1)], out))
+    # printing on the Arduino-style build: a stride of the float patterns and the sampled doubles
+    outp = os.path.join(wd, "printa.ndjson")
+    jobs.append(("printa", [ba, "print", outp, str(stride * 7 + 3), "0", str(2**32 - 1)], outp))
     good = numcommon.run_jobs(chk, jobs)
     # the doubles that are exactly representable as a float form the known finding class
     # "double-stored-as-float": they are validated separately so that they cannot hide anything else
     final = []
     for label, out in good:
-        if label == "print0":
-            keep, known = os.path.join(wd, "print0-main.ndjson"), os.path.join(wd, "print0-asfloat.ndjson")
+        if label in ("print0", "printa"):
+            keep, known = os.path.join(wd, f"{label}-main.ndjson"), os.path.join(wd, f"{label}-asfloat.ndjson")
             with open(out) as f, open(keep, "w") as k, open(known, "w") as kn:
                 for line in f:
                     (kn if '"storedasfloat":true' in line else k).write(line)
             final.append((label, keep))
-            ok, n, info, ev = numcommon.validate(chk, "C12", known, wd, "print0-asfloat")
+            ok, n, info, ev = numcommon.validate(chk, "C12", known, wd, f"{label}-asfloat")
             if not ok:
                 chk.violation(f"double-stored-as-float: {info and info.get('why')} ; first event: {(ev or '')[:400]}", ev)
         else:
